@@ -287,6 +287,30 @@ theorem C15_interleaved_generators_equal_traditional (s : State) (u : Option Boo
   refine ⟨hp.1, hp.2, fun hj => hi.expok j ?_⟩
   rw [runG_world]; exact hj
 
+/-- **No context leak, whatever the server does.**  Server with an empty context table, fresh connection with any
+    `use_pull_operations`, ANY history: the server may switch pull off and on and remove namespaces at any moment;
+    calls of the six generator methods with any arguments (IterQueryInstances with a failing ExecQuery); any
+    interleaving of next / close / drop / throw.  Every enumeration context on the server is then held by a
+    generator suspended in its pull loop — or the request log shows that the server answered
+    CIM_ERR_NOT_SUPPORTED to the CloseEnumeration of exactly that context (`Refused`).  So a context outlives its
+    generator only if the server itself refused to close it.  This discharges the "server keeps supporting pull"
+    hypothesis of `C15_no_context_leak`. -/
+theorem C15_no_context_leak_any_server (s : State) (u : Option Bool) (evs : List Ev)
+    (hs : s.ctxs = []) (hev : ∀ ev ∈ evs, CallOk ev) :
+    let w := (runW (fresh s u) evs).1
+    ∀ x ∈ w.conn.srv.ctxs, (∃ j, j < w.n ∧ holds (w.gens j) x.id) ∨ Refused w.conn x.id := by
+  intro w x hx
+  have h0 : HInv2 (fresh s u) :=
+    ⟨by intro x hx; simp [fresh, hs] at hx, fun j _ _ _ _ h => (by cases h), fun _ _ => rfl⟩
+  have h : HInv2 w := hinv2_run evs h0 hev
+  rcases h.owned x hx with ⟨j, hj⟩ | hr
+  · refine Or.inl ⟨j, ?_, hj⟩
+    by_cases hlt : j < w.n
+    · exact hlt
+    · rw [h.beyond j (by omega)] at hj
+      obtain ⟨_, _, hj⟩ := hj; cases hj
+  · exact Or.inr hr
+
 /-- the server refusing CloseEnumeration is the one way a context can outlive its generator: with pull
     switched off between `next()` and `close()`, `close()` raises CIM_ERR_NOT_SUPPORTED and the context
     stays (this is why `C15_no_context_leak` asks for a server that keeps supporting pull) -/
@@ -348,7 +372,81 @@ theorem C15_learned_state_harmless_partial (s : State) (u : Option Bool) (evs : 
     outcome (runW (fresh s u) evs).1.conn a k =
       outcome { (runW (fresh s u) evs).1.conn with flags := fun _ => u } a k := by
   have st := steady_run evs (steady_fresh s u hinv) hev
-  exact learned_equiv _ a u st.inv hq (by rw [st.dis]; exact st.ff) k hok
+  exact learned_equiv _ a u st.inv hq (by rw [st.dis]; exact st.ff a.fam) k hok
+
+/-- **Learned state against a server that toggles at will: exactly KF1 and KF2, nothing else.**
+    ANY history on a connection created with `use_pull_operations=None` (any events: calls of all seven methods,
+    next/close/drop/throw, the server switching pull on and off any number of times, namespaces removed), then any
+    call of the six generator methods that succeeds within `k` steps on the same connection with nothing learned
+    (`unlearned`).  On the connection with its history the call
+    (1) has the same outcome, or
+    (2) yields the same traditional objects through the fallback (completed paths) instead of the pull path
+        [flag stale False, server has pull again, no pull-only argument], or
+    (3) raises ValueError at the first `next()` [flag stale False, server has pull again, FilterQuery /
+        ContinueOnError given] — known finding C15-KF1, or
+    (4) raises CIM_ERR_NOT_SUPPORTED at the first `next()` [flag stale True, server lost pull] — C15-KF2.
+    This discharges the "capability constant" hypothesis of `C15_learned_state_harmless_partial`: it is the strongest
+    statement that is true of the code. -/
+theorem C15_learned_state_dichotomy (s : State) (hinv : Inv s) (evs : List Ev) (a : Args) (k : Nat)
+    (hq : a.fam ≠ .query)
+    (hok : ∀ e, (outcome (unlearned (runW (fresh s none) evs).1.conn) a k).2 ≠ some (.raise e)) :
+    let c := (runW (fresh s none) evs).1.conn
+    outcome c a k = outcome (unlearned c) a k ∨
+    (c.flags a.fam = some false ∧ c.srv.disabled = false ∧ fallbackReject a = false ∧
+      outcome c a k = specOf (fallbackItems a) k ∧ outcome (unlearned c) a k = specOf a.tradObjs k) ∨
+    (c.flags a.fam = some false ∧ c.srv.disabled = false ∧ fallbackReject a = true ∧
+      (k = 0 ∨ outcome c a k = ([], some (.raise .valueError)))) ∨
+    (c.flags a.fam = some true ∧ c.srv.disabled = true ∧
+      (k = 0 ∨ outcome c a k = ([], some (.raise (.cimError CIM_ERR_NOT_SUPPORTED))))) :=
+  learned_dichotomy _ a k (runW_inv evs (fresh s none) hinv) hq hok
+
+/-- **A flag that agrees with the server as it is now is harmless, whatever happened before** (history-free form of
+    the learned-state clause): any connection state whose flag for the family is still the configured value `u`, or —
+    configured None — was learned and matches the server's present capability; a call that succeeds with nothing
+    learned has the same outcome. -/
+theorem C15_consistent_flag_harmless (c : Conn) (a : Args) (u : Option Bool) (k : Nat) (hinv : Inv c.srv)
+    (hq : a.fam ≠ .query)
+    (hfl : c.flags a.fam = u ∨ (u = none ∧ c.flags a.fam = some (!c.srv.disabled)))
+    (hok : ∀ e, (outcome { c with flags := fun _ => u } a k).2 ≠ some (.raise e)) :
+    outcome c a k = outcome { c with flags := fun _ => u } a k :=
+  learned_equiv c a u hinv hq hfl k hok
+
+/-- **Every yielded path names the namespace; fallback paths of the Enumerate methods name the host.**
+    If the traditional operation's objects name their namespace (the client sets it on every traditional result),
+    so does every object an Iter generator yields — in every mode, for every flag, capability and prefix length;
+    and when the traditional fallback is used by a method whose traditional response format carries neither
+    namespace nor host (EnumerateInstances, EnumerateInstanceNames) every yielded path also names the host. -/
+theorem C15_paths_name_namespace (c : Conn) (a : Args) (k : Nat) (hinv : Inv c.srv) (hq : a.fam ≠ .query)
+    (hns : ∀ o ∈ a.tradObjs, hasNs o = true) :
+    (∀ o ∈ (outcome c a k).1, hasNs o = true) ∧
+    (UsesFallback c a → a.fam.row.completesPath = true → ∀ o ∈ (outcome c a k).1, hasHost o = true) := by
+  have hfb : ∀ o ∈ fallbackItems a, hasNs o = true := by
+    intro o ho
+    by_cases hc : a.fam.row.completesPath = true
+    · exact ((C15_fallback_items_spec a).2.1 hc o ho).1
+    · have := (C15_fallback_items_spec a).2.2.1 (by simpa using hc)
+      rw [this] at ho; exact hns o ho
+  constructor
+  · intro o ho
+    rcases C15_iter_equals_traditional c a k hinv hq with h | h | ⟨e, _, h⟩
+    · rw [h] at ho; exact hns o (List.mem_of_mem_take ho)
+    · rw [h] at ho; exact hfb o (List.mem_of_mem_take ho)
+    · rcases h with h | h
+      · subst h; rw [outcome_zero] at ho; cases ho
+      · rw [h] at ho; cases ho
+  · intro hu hc o ho
+    rcases classify c a with ⟨_, hp, hd, _⟩ | ⟨hv, _, hr, ht⟩ | hfail
+    · exfalso
+      rcases hu with hf | ⟨_, hd'⟩
+      · rw [hf] at hp; simp [usePull] at hp
+      · rw [hd] at hd'; cases hd'
+    · rw [(fallback_spec c a k hv hu hr ht).1] at ho
+      exact ((C15_fallback_items_spec a).2.1 hc o (List.mem_of_mem_take ho)).2
+    · cases k with
+      | zero => rw [outcome_zero] at ho; cases ho
+      | succ k =>
+        obtain ⟨e, he⟩ := hfail
+        rw [fails_outcome_exact he k] at ho; cases ho
 
 /-- negation witness 1 (known finding C15-KF1): server without pull, one Iter call (the flag becomes False),
     the server gains pull, then an Iter call with ContinueOnError: ValueError — a fresh connection yields -/
@@ -434,5 +532,30 @@ example : ∀ ev ∈ rmnsHistory, Allowed ev := by decide
 example : (runW (fresh { nss := [0, 1] } none) rmnsHistory).2 = [.ok, .yield 6, .ok, .raise (.cimError 3)] ∧
     (runW (fresh { nss := [0, 1] } none) (rmnsHistory.take 3)).1.conn.srv.ctxs.map (·.id) = [0] ∧
     (runW (fresh { nss := [0, 1] } none) rmnsHistory).1.conn.srv.ctxs = [] := by decide
+
+-- C15_learned_state_dichotomy, the four cases on concrete toggling histories
+def learnFalseThenEnable : List Ev := [.setDisabled true, .call demoArgs, .next 0, .drop 0, .setDisabled false]
+def learnTrueThenDisable : List Ev := [.call demoArgs, .next 0, .drop 0, .setDisabled true]
+example : let c := (runW (fresh { nss := [0] } none) learnFalseThenEnable).1.conn   -- case (2)
+    outcome c demoArgs 2 = ([7, 11], none) ∧ outcome (unlearned c) demoArgs 2 = ([6, 10], none) := by decide
+example : let c := (runW (fresh { nss := [0] } none) learnFalseThenEnable).1.conn   -- case (3)
+    outcome c { demoArgs with coe := true } 1 = ([], some (.raise .valueError)) ∧
+    outcome (unlearned c) { demoArgs with coe := true } 1 = ([6], none) := by decide
+example : let c := (runW (fresh { nss := [0] } none) learnTrueThenDisable).1.conn   -- case (4)
+    outcome c demoArgs 1 = ([], some (.raise (.cimError 7))) ∧ outcome (unlearned c) demoArgs 1 = ([7], none) := by
+  decide
+example : ∀ o ∈ demoArgs.tradObjs, hasNs o = true := by decide
+
+-- C15_no_context_leak_any_server on the refused-close history: the surviving context 0 is logged as refused
+example : Refused (runW (fresh { nss := [0] } none)
+    [.call { fam := .enumPath, ns := 0, tradObjs := [6, 10, 14], max := .int 1 }, .next 0, .setDisabled true, .close 0,
+     .setDisabled false]).1.conn 0 := by unfold Refused; decide
+
+-- a namespace removed BEFORE the generator's first next(): the call now answers CIM_ERR_INVALID_NAMESPACE in
+-- every mode (pull: Open refused; fallback: the traditional operation refused), nothing is created on the server
+example : (runW (fresh { nss := [0, 1] } none)
+      [.call { demoArgs with ns := 1 }, .removeNs 1, .next 0]).2 = [.ok, .ok, .raise (.cimError 3)] ∧
+    (runW (fresh { nss := [0, 1] } (some false))
+      [.call { demoArgs with ns := 1 }, .removeNs 1, .next 0]).2 = [.ok, .ok, .raise (.cimError 3)] := by decide
 
 end C15
